@@ -16,8 +16,6 @@ package web
 //@   pure
 //@ assumed (*server.Dataset).IsVirtual
 //@   pure
-//@ assumed (*server.Dataset).AsProxy
-//@   pure
 //@ assumed (*server.ProxyDataset).ForwardEntities
 //@   pure
 // the authorisation applied to the backend requests of a proxy dataset is the one of the login provider registered under the
@@ -420,6 +418,7 @@ package web
 //@     ghost jsonG := $result0
 //@ unit (*datasetHandler).getChangesHandler
 //@   prop C02
+//@   requires [callers-hold-no-lock] forall l int :: !has($held, l)
 //@   ghost fwdTokG string = ""
 //@   ghost encG string = ""
 //@   at call StreamChanges#1 before
@@ -620,6 +619,7 @@ package web
 //@   pure
 //@ unit (*datasetHandler).getEntitiesHandler
 //@   prop C01
+//@   requires [callers-hold-no-lock] forall l int :: !has($held, l)
 //@   ghost fromG string = ""
 //@   ghost limitTextG string = ""
 //@   ghost limG int = 0
